@@ -233,7 +233,7 @@ def campaign_floats(ctx):
     if ctx.thorough:
         ctx.exhaustive("every binary16 bit pattern through every Float16 name")
     strat = st.sampled_from(specs).flatmap(lambda s: st.tuples(st.just(s), st.integers(0, (1 << (8 * s[1])) - 1))).map(list)
-    ctx.search(strat, orc, ctx.budget(1500, 60000))
+    ctx.search(strat, orc, ctx.budget(6000, 60000))
     # doubles that do not fit narrower formats: overflow must be rejected, rounding must be to nearest even
     def narrow(case):
         spec, x = case
@@ -242,7 +242,7 @@ def campaign_floats(ctx):
         f, status, data = check_build(spec, con, {}, x)
         return f
     xs = st.one_of(st.floats(allow_nan=False), st.sampled_from([65504.0, 65519.99, 65520.0, 3.4028235677973366e+38, 3.4028234e38, 1e-8, 5.96e-8, 2.98e-8, 1e-46]))
-    ctx.search(st.tuples(st.sampled_from([s for s in specs if s[1] < 8]), xs).map(list), narrow, ctx.budget(800, 30000), name="floats-narrow")
+    ctx.search(st.tuples(st.sampled_from([s for s in specs if s[1] < 8]), xs).map(list), narrow, ctx.budget(3200, 30000), name="floats-narrow")
 campaign_floats.shards = (1, 4)
 
 
@@ -316,7 +316,7 @@ def campaign_varint(ctx):
         return None
     strat = st.tuples(st.sampled_from(["varint", "zigzag"]), st.one_of(st.integers(-(1 << 130), 1 << 130), st.integers(-300, 300)),
                       st.integers(0, 3)).map(list)
-    ctx.search(strat, wide, ctx.budget(1500, 40000), name="varint-wide")
+    ctx.search(strat, wide, ctx.budget(6000, 40000), name="varint-wide")
 campaign_varint.shards = (2, 16)
 
 
@@ -344,7 +344,7 @@ def campaign_bytemaps(ctx):
         else:
             s[2] = [[l, v] for l, v in s[2] if v < 256] or [["A", 1]]
         return s
-    nspecs = ctx.budget(40, 800)
+    nspecs = ctx.budget(160, 800)
 
     def per_spec(spec):
         for b in range(256):
@@ -389,8 +389,8 @@ def values_oracle(ctx):
 
 
 def campaign_values(ctx):
-    ctx.search(V.cases(frag=V.CORE, depth=3).map(list), values_oracle(ctx), ctx.budget(2500, 160000))
-campaign_values.shards = (2, 16)
+    ctx.search(V.cases(frag=V.CORE, depth=3).map(list), values_oracle(ctx), ctx.budget(10000, 160000))
+campaign_values.shards = (4, 16)
 
 
 @st.composite
@@ -422,8 +422,8 @@ def bytes_oracle(ctx):
 
 
 def campaign_bytes(ctx):
-    ctx.search(bytes_cases(), bytes_oracle(ctx), ctx.budget(2500, 160000))
-campaign_bytes.shards = (2, 16)
+    ctx.search(bytes_cases(), bytes_oracle(ctx), ctx.budget(10000, 160000))
+campaign_bytes.shards = (4, 16)
 
 
 @st.composite
@@ -507,8 +507,8 @@ def _invalid_value(spec, cur):
 
 
 def campaign_invalid(ctx):
-    ctx.search(invalid_cases(), values_oracle(ctx), ctx.budget(1500, 80000))
-campaign_invalid.shards = (1, 8)
+    ctx.search(invalid_cases(), values_oracle(ctx), ctx.budget(6000, 80000))
+campaign_invalid.shards = (3, 8)
 
 
 CAMPAIGNS = {"ints": campaign_ints, "floats": campaign_floats, "varint": campaign_varint, "bytemaps": campaign_bytemaps,
